@@ -41,15 +41,24 @@ func main() {
 		return
 	}
 	r := vh.Start("C40")
-	defer r.Finish()
 	api.DisableConfigDir()
 	base, err := os.MkdirTemp("", "c40-")
 	if err != nil {
 		panic(err)
 	}
-	defer os.RemoveAll(base)
 	partK(r, base)
-	partO(r, base)
+	broken := partO(r, base)
+	os.RemoveAll(base)
+	r.Finish()
+	if len(broken) > 0 {
+		// a worker that died for reasons that are not pdfcpu's: the run decides nothing (neither OK nor a
+		// property violation); the non-zero exit makes the framework report the run as broken
+		fmt.Fprintln(os.Stderr, "C40: BROKEN RUN (harness / race runtime / resources, not attributable to pdfcpu):")
+		for _, b := range broken {
+			fmt.Fprintln(os.Stderr, b)
+		}
+		os.Exit(5)
+	}
 }
 
 // ---------------------------------------------------------------- synthetic environments
